@@ -146,6 +146,79 @@ def make_param(eng, kind, hint):
     raise Unsupported("parameter kind %s" % kind)
 
 
+def value_matches_kind(eng, v, kind):
+    """does the actual argument v have the shape that `kind` generates for verification?  (conservative: unknown
+    combinations count as not matching)"""
+    from .values import SetVal, ListVal
+    if kind is None:
+        return True
+    if kind == "none":
+        return v is None
+    if kind == "termdict":
+        return isinstance(v, DictVal) and v.ver.ksort == T.Key or (isinstance(v, dict) and not v)
+    if kind == "emptydict":
+        return isinstance(v, dict) and not v
+    if kind.startswith("model:") or kind.startswith("newmodel:"):
+        return isinstance(v, PObj) and v.cls.name == kind.split(":", 1)[1]
+    if kind == "real":
+        return (isinstance(v, SV) and v.t in ("real", "int")) or (is_num_(v) and not isinstance(v, bool))
+    if kind == "int":
+        return (isinstance(v, SV) and v.t == "int") or (isinstance(v, int) and not isinstance(v, bool))
+    if kind == "bool":
+        return isinstance(v, bool) or (isinstance(v, SV) and v.t == "bool")
+    if kind == "label":
+        return isinstance(v, SV) and v.t == "label" or isinstance(v, (str, int)) and not isinstance(v, bool)
+    if kind == "key":
+        return isinstance(v, SV) and v.t == "key" or (isinstance(v, tuple) and all(value_matches_kind(eng, x, "label") for x in v))
+    if kind == "labelkey":
+        return isinstance(v, SV) and v.t == "key"
+    if kind in ("bassign", "sassign", "bassign_seq", "sassign_seq"):
+        return isinstance(v, AssignVal)
+    if kind == "valmap":
+        return isinstance(v, DictVal) and v.ver.ksort == T.Label
+    if kind == "labelset":
+        return isinstance(v, SetVal)
+    if kind.startswith("const:"):
+        try:
+            return v == ast.literal_eval(kind[6:]) and type(v) is type(ast.literal_eval(kind[6:]))
+        except Exception:
+            return False
+    if kind.startswith("class:"):
+        return isinstance(v, ClassRef) and v.cls.name == kind[6:]
+    if kind == "tuple:":
+        return isinstance(v, tuple) and not v
+    if kind.startswith("tuple:"):
+        ks = kind[6:].split(",")
+        return isinstance(v, tuple) and len(v) == len(ks) and all(value_matches_kind(eng, x, k) for x, k in zip(v, ks))
+    return None       # kinds of the list theory etc.: not judged
+
+
+def is_num_(v):
+    import fractions
+    return isinstance(v, (int, float, fractions.Fraction))
+
+
+def shape_covered(eng, c, env):
+    """True when some verified instance of the contract has the shape of this call (None: cannot tell)"""
+    if not c.instances:
+        return None
+    unknown = False
+    for inst in c.instances:
+        ok = True
+        for p, kind in inst.items():
+            if p not in env:
+                continue
+            m = value_matches_kind(eng, env[p], kind)
+            if m is None:
+                unknown = True
+            elif not m:
+                ok = False
+                break
+        if ok:
+            return True if not unknown else None
+    return False
+
+
 def make_model(eng, clsname, hint, fresh_empty=False):
     cls = eng.db.classes[clsname]
     o = eng.alloc(PObj(cls))
@@ -206,6 +279,14 @@ def _apply_contract(eng, c, env, cl):
     caller = eng.call_stack[-1] if eng.call_stack else (eng.target.qualname if eng.target else "?")
     inst_kind = None
     fr = Frame(cl, dict(env))
+    if not c.trusted and shape_covered(eng, c, env) is False:
+        # the contract was discharged for the parameter shapes listed in its `instances` only
+        if os.environ.get("QVC_SHAPE_AUDIT"):
+            with open(os.environ["QVC_SHAPE_AUDIT"], "a") as f:
+                f.write("%s -> %s : %s\n" % (caller, qn, {k: _describe(v) for k, v in env.items()}))
+        else:
+            raise Unsupported("call of %s with an argument shape outside the instances its contract was verified for: %s"
+                              % (qn, {k: _describe(v) for k, v in env.items()}))
     snap = eng.snapshot(list(env.values()))
     for i, r in enumerate(c.requires):
         eng.oblige("%s/pre@call:%s#%d" % (caller, qn, i), eng.spec_bool(r, env, fr))
@@ -255,6 +336,18 @@ def _apply_contract(eng, c, env, cl):
     if any("warned_unsat" in e for e in c.ensures):
         eng.warned.append(SV(w, "bool"))
     return result
+
+
+def _describe(v):
+    if isinstance(v, PObj):
+        return "model:" + v.cls.name
+    if isinstance(v, DictVal):
+        return "dict"
+    if isinstance(v, SV):
+        return v.t
+    if isinstance(v, tuple):
+        return "(" + ",".join(_describe(x) for x in v) + ")"
+    return type(v).__name__ if not isinstance(v, (int, float, str, bool, type(None))) else repr(v)
 
 
 def _ens(eng, src, env, fr, snap):
